@@ -1,0 +1,77 @@
+//go:build verif
+
+// Contracts for the deductive verifier in /verif (govc). Only compiled with -tags verif.
+
+package state
+
+// ---- C03: the aggregated status of a change ------------------------------------------------
+
+//@ const [C03] statusOrder: []Status{AbortStatus, UndoingStatus, UndoStatus, DoingStatus, DoStatus, WaitStatus, ErrorStatus, UndoneStatus, DoneStatus, HoldStatus}
+
+//@ func specStatusRank
+//@   pure
+
+// position of a task status in the aggregation order (smaller wins): abort first, hold last
+func specStatusRank(s Status) int {
+	switch s {
+	case AbortStatus:
+		return 0
+	case UndoingStatus:
+		return 1
+	case UndoStatus:
+		return 2
+	case DoingStatus:
+		return 3
+	case DoStatus:
+		return 4
+	case WaitStatus:
+		return 5
+	case ErrorStatus:
+		return 6
+	case UndoneStatus:
+		return 7
+	case DoneStatus:
+		return 8
+	case HoldStatus:
+		return 9
+	}
+	return 10
+}
+
+//@ define someTaskHas(c *Change, s Status) = exists j int :: 0 <= j && j < len(c.taskIDs) && stOf(c.state.tasks[c.taskIDs[j]]) == s
+
+// a change counts as waiting only if no task of it is running, aborting, or in an unknown status
+//@ func (*Change).isChangeWaiting
+//@   props C03
+//@   ensures result ==> forall j int :: 0 <= j && j < old(len(c.taskIDs)) ==> old(stOf(c.state.tasks[c.taskIDs[j]])) != DoingStatus && old(stOf(c.state.tasks[c.taskIDs[j]])) != UndoingStatus && old(stOf(c.state.tasks[c.taskIDs[j]])) != AbortStatus
+//@   loop 0: invariant -1 <= idx0 && idx0 < len(ranged0) && len(ranged0) == old(len(c.taskIDs))
+//@   loop 0: invariant forall j int :: 0 <= j && j < len(ranged0) ==> ranged0[j] == old(c.state.tasks[c.taskIDs[j]])
+//@   loop 0: invariant forall j int :: 0 <= j && j <= idx0 ==> old(stOf(c.state.tasks[c.taskIDs[j]])) != DoingStatus && old(stOf(c.state.tasks[c.taskIDs[j]])) != UndoingStatus && old(stOf(c.state.tasks[c.taskIDs[j]])) != AbortStatus
+
+//@ func (*Change).isTaskWaiting
+//@   trusted
+//@   preserves Task.status Task.waitedStatus Task.waitTasks Task.haltTasks Task.change Task.state Task.id Change.taskIDs Change.state Change.status State.tasks State.changes Md:Str:Ref Mv:Str:Ref Mc:Str:Ref E:Str E:Ref E:Int
+
+//@ func (*Change).Status
+//@   props C03
+//@   requires c != nil
+//@   ensures [explicit] old(c.status) != DefaultStatus ==> result == old(c.status)
+//@   ensures [empty] old(c.status == DefaultStatus && len(c.taskIDs) == 0) ==> result == HoldStatus
+//@   ensures [witness] old(c.status == DefaultStatus && len(c.taskIDs) > 0) ==> old(someTaskHas(c, result))
+//@   ensures [priority] old(c.status == DefaultStatus && len(c.taskIDs) > 0) ==> (result == WaitStatus && !old(someTaskHas(c, DoingStatus)) && !old(someTaskHas(c, UndoingStatus)) && !old(someTaskHas(c, AbortStatus))) || forall s Status :: 0 <= s && s < nStatuses && old(someTaskHas(c, s)) ==> specStatusRank(result) <= specStatusRank(s)
+//@   loop 0: frame
+//@   loop 0: invariant -1 <= idx0 && idx0 < len(ranged0) && ranged0 == old(c.taskIDs) && len(statusStats) == nStatuses
+//@   loop 0: invariant forall s int :: 0 <= s && s < nStatuses ==> statusStats[s] >= 0
+//@   loop 0: invariant forall j int :: 0 <= j && j <= idx0 && 0 <= old(stOf(c.state.tasks[c.taskIDs[j]])) && old(stOf(c.state.tasks[c.taskIDs[j]])) < nStatuses ==> statusStats[old(stOf(c.state.tasks[c.taskIDs[j]]))] > 0
+//@   loop 0: invariant forall s int :: 0 <= s && s < nStatuses && statusStats[s] > 0 ==> exists j int :: 0 <= j && j <= idx0 && old(stOf(c.state.tasks[c.taskIDs[j]])) == s
+//@   loop 1: frame
+//@   loop 1: invariant -1 <= idx1 && idx1 < len(ranged1) && ranged1 == old(statusOrder) && len(ranged1) == 10
+//@   loop 1: invariant forall s int :: 1 <= s && s < nStatuses ==> ranged1[specStatusRank(s)] == s
+//@   loop 1: invariant forall k int :: 0 <= k && k < 10 ==> specStatusRank(ranged1[k]) == k && 1 <= ranged1[k] && ranged1[k] < nStatuses
+//@   loop 1: invariant forall s int :: 1 <= s && s < nStatuses && specStatusRank(s) <= idx1 ==> statusStats[s] == 0
+
+// ---- C03: a change becomes ready once ----------------------------------------------------------
+
+// the ready time of a change is set once: a store to it either finds it zero or restores it from
+// the persisted state
+//@ fieldguard [C03] Change.readyTime: oldval.IsZero() || infunc("UnmarshalJSON")
